@@ -26,11 +26,16 @@ def literal_safe(p: bytes) -> bool:
 def one_quote_kind(p: bytes) -> bool:
     """Printable, no backslash / back-tick, and at most ONE of the two quote characters (the literal is then written with
     the other one, which the documented string syntax allows)."""
-    return printable(p) and not (set(p) & set(b"\\`")) and not (b"'" in p and b'"' in p)
+    if not printable(p) or (b"'" in p and b'"' in p):
+        return False
+    if set(p) & set(b"\\`"):
+        # backslash and back-tick are escape characters of the double-quoted syntax only: such text must be single-quoted
+        return b"'" not in p
+    return True
 
 
 def quote_for(r, p: bytes) -> bytes:
-    if b'"' in p:
+    if b'"' in p or (set(p) & set(b"\\`")):
         return b"'"
     if b"'" in p:
         return b'"'
@@ -194,7 +199,7 @@ class Concat(Enc):
     name, type, label = "concat", "string", "concatenation"
 
     def dom(self, p):
-        return len(p) >= 2 and literal_safe(p)
+        return len(p) >= 2 and printable(p) and not (set(p) & set(b"\"'"))
 
     def enc(self, p, r):
         for _ in range(20):
@@ -209,7 +214,7 @@ class Concat(Enc):
             return None
         out = b""
         for i, part in enumerate(parts):
-            q = r.choice([b'"', b"'"])
+            q = b"'" if (set(part) & set(b"\\`")) else r.choice([b'"', b"'"])
             if i:
                 out += r.choice([b" + ", b"+", b" & ", b"&", b" &amp; ", b" +\n", b" _\r\n& ", b"\t+\t"])
             out += q + part + q
